@@ -70,6 +70,7 @@ import Sds.Proofs.GenEqLoop3
 import Sds.Proofs.GenEqRL1
 import Sds.Proofs.GenEqConstr
 import Sds.Proofs.GenEqRL2
+import Sds.Proofs.GenEqConstr4
 
 namespace Sds.C03
 open Sds Outcome
@@ -662,5 +663,23 @@ theorem rl_select_family_as_translated_from_source {m : Mode} {v : RL} (hb : Gen
    GenEq.rl_zero_iter_eq hb,
    fun hlen hol rank hr => ⟨GenEq.rl_select_zero_eq hb rank hlen hol hr, GenEq.rl_select_zero_iter_eq hb rank hlen hol hr⟩,
    fun hlen value hr => GenEq.rl_successor_eq hb value hlen hr⟩
+
+/-! **`impl From<RLBuilder> for RLVector` as translated from the source on this run** (`Generated/FnsConstr4.lean`): `flush`,
+the three `SampleIndex::new` calls over `builder.samples.iter().map(..)` (bits, ones, `bits - ones`; each iterator the
+list of its items), `count_zeros`, `max_value = samples.last().unwrap_or(&(0, 0)).1`, the compressed samples
+(`with_capacity(2 * blocks, bit_len(max_value))` and the `for (ones, bits)` loop pushing both) and the final struct —
+equal to the model's `RL.ofBuilder`, which the theorems above are about, on every builder state reachable through the
+public API (`RLBuilder.Inv`) whose sample count fits the representation bound. -/
+theorem rl_from_builder_as_translated_from_source (m : Mode) (b : RLBuilder) (h : b.Inv)
+    (hs : 128 * b.samples.size + 191 < U64) :
+    Generated.gen_RLVector_from_builder m b = RL.ofBuilder m b :=
+  GenEq.rl_from_builder_eq_of_inv m b h hs
+
+/-- … and without the invariant, under the explicit bounds the arithmetic needs -/
+theorem rl_from_builder_as_translated_explicit_bounds (m : Mode) (b : RLBuilder) (hlen : b.len < U64) (hones : b.ones < U64)
+    (hs : 128 * b.samples.size + 191 < U64)
+    (hrun : b.run.2 ≠ 0 → b.data.len + 44 < U64 ∧ b.run.2 ≤ b.ones ∧ b.run.1 + b.run.2 < U64) :
+    Generated.gen_RLVector_from_builder m b = RL.ofBuilder m b :=
+  GenEq.rl_from_builder_eq m b hlen hones hs hrun
 
 end Sds.C03
